@@ -116,3 +116,44 @@ Definition matches (p : list (N * N) * N) (s : list N) : bool :=
 From J5V.lib Require Import Sha1.
 Definition new_hash (ns : list N) (ins : list (list N)) : list N :=
   firstn 16 (sha1 (ns ++ concat ins)).
+
+(* ---- NewHash as one step of a process ------------------------------------------------- *)
+(* The package-level state of lib/id62 (its variables: Id62Gen.package_vars) is threaded through a
+   sequence of calls.  NewHash reads and writes none of it (Id62Gen.newhash_state_refs = [], checked
+   on the regenerated table: proofs/Id62Proofs.newhash_is_stateless) and creates its digest with
+   sha1.New() inside the call, so a step leaves the state as it is and its result is [new_hash] of
+   its own arguments.  A memo table added to the package would appear in newhash_state_refs and
+   break that lemma; as a function it would have to be modelled here as part of [pkg_state]. *)
+Record pkg_state := mkPkg { ps_pattern_string : list N }.
+
+Definition hash_call := (list N * list (list N))%type.
+
+Definition new_hash_step (st : pkg_state) (c : hash_call) : pkg_state * list N :=
+  (st, new_hash (fst c) (snd c)).
+
+Fixpoint new_hash_seq (st : pkg_state) (cs : list hash_call) : pkg_state * list (list N) :=
+  match cs with
+  | [] => (st, [])
+  | c :: r =>
+      let (st1, id) := new_hash_step st c in
+      let (st2, ids) := new_hash_seq st1 r in
+      (st2, id :: ids)
+  end.
+
+(* ---- the schema reader's recognition of the published pattern --------------------------- *)
+(* lib/j5schema/schema_from_proto.go, buildFromStringProto: a string field whose validation pattern is
+   a key of wellKnownStringPatterns gets that entry's format instead of the pattern; format "id62"
+   makes the field a key of format id62.  (A Go map literal has no duplicate keys, so the first match
+   is the lookup.) *)
+From J5V.lib Require Import Corr.
+Fixpoint recognise (tab : list (list N * list N)) (pat : list N) : option (list N) :=
+  match tab with
+  | [] => None
+  | (k, f) :: r => if nlist_eqb k pat then Some f else recognise r pat
+  end.
+
+Definition reads_back_as (tab : list (list N * list N)) (fmt pat : list N) : bool :=
+  match recognise tab pat with
+  | Some f => nlist_eqb f fmt
+  | None => false
+  end.
